@@ -33,7 +33,7 @@ func init() {
 
 var saltedLeaseRe = regexp.MustCompile(`/h[0-9a-f]{64}(\.[A-Za-z0-9]+)?$`)
 
-var c06Kinds = []string{"creds", "creds-1use", "creds-wrapped", "login", "login-wrapped", "token-create", "token-create-orphan", "token-create-role", "token-create-root", "token-create-periodic", "creds-batch", "creds-batch-orphan"}
+var c06Kinds = []string{"creds", "creds-1use", "creds-wrapped", "login", "login-wrapped", "token-create", "token-create-orphan", "token-create-role", "token-create-root", "token-create-periodic", "creds-batch", "creds-batch-orphan", "token-create-root-id", "token-create-id"}
 
 type c06Snap struct {
 	lease, idx, tok []string
@@ -126,6 +126,10 @@ path "auth/token/create/*" { capabilities = ["update"] }
 			return Req{Op: logical.UpdateOperation, Path: "auth/token/create/r1", Token: caller, Data: map[string]any{"policies": []string{"p"}, "ttl": "30m"}}
 		case "token-create-root": // a root token creating a non-expiring root token
 			return Req{Op: logical.UpdateOperation, Path: "auth/token/create", Token: h0.Root, Data: map[string]any{"policies": []string{"root"}}}
+		case "token-create-root-id": // ... with an id the operator chose (a break-glass token): usable by whoever knows the id
+			return Req{Op: logical.UpdateOperation, Path: "auth/token/create", Token: h0.Root, Data: map[string]any{"policies": []string{"root"}, "id": "breakglass-root-token"}}
+		case "token-create-id": // an expiring token with a chosen id
+			return Req{Op: logical.UpdateOperation, Path: "auth/token/create", Token: h0.Root, Data: map[string]any{"policies": []string{"p"}, "ttl": "30m", "id": "breakglass-token"}}
 		case "token-create-periodic":
 			return Req{Op: logical.UpdateOperation, Path: "auth/token/create", Token: h0.Root, Data: map[string]any{"policies": []string{"p"}, "period": "1h"}}
 		}
@@ -309,6 +313,18 @@ path "auth/token/create/*" { capabilities = ["update"] }
 				return false
 			}
 			s.Probe("failed_creation_left_token_with_lease")
+		}
+		// a token with an operator-chosen id is usable by whoever knows the id,
+		// whatever became of its accessor: the request failed, so that id must
+		// not work (a root token needs no lease to be accepted)
+		if id, _ := mkReq().Data["id"].(string); id != "" {
+			r2, e2 := a.h.Do("probe", Req{Op: logical.ReadOperation, Path: "auth/token/lookup-self", Token: id})
+			if e2 == nil && r2 != nil && !r2.IsError() && r2.Data != nil && authLease == 0 {
+				s.Violate("C06", "usable-token-without-lease-after-failed-creation", map[string]any{"kind": kind, "failed_op": sig["failed_op"], "via": "operator-chosen id"},
+					"the request failed, but the token id it asked for is accepted (policies %v, ttl %v) and no lease was recorded for it; %s", r2.Data["policies"], r2.Data["ttl"], desc)
+				return false
+			}
+			s.Probe("chosen_id_refused_after_failed_creation")
 		}
 		for _, tk := range newTok {
 			salted := tk[strings.LastIndex(tk, "/")+1:]
